@@ -804,7 +804,65 @@ class CallMixin:
         self._comp_start, self._comp_range = start_mark, crange
         return k, (it.length if (it is not None and crange is None) else None), vals, conds, sub, s
 
+    def _val_key(self, v, st, depth=0):
+        v0 = self.deref(v, st) if isinstance(v, VRef) else v
+        if isinstance(v0, V):
+            return ("V", str(v0.sort), v0.t.get_id() if v0.t is not None else None)
+        if isinstance(v0, VSeq):
+            return ("S", tuple((p.kind, p.a.get_id() if p.a is not None and hasattr(p.a, "get_id") else None,
+                                z3.simplify(p.lo).get_id() if p.lo is not None else None,
+                                z3.simplify(p.hi).get_id() if p.hi is not None else None,
+                                tuple(z3.simplify(i).get_id() for i in p.items) if p.items else None) for p in v0.pieces))
+        if isinstance(v0, VTuple):
+            return ("T", tuple(self._val_key(x, st, depth + 1) for x in v0.items))
+        if isinstance(v0, ObjState) and depth < 2:
+            return ("O", v0.cls, tuple((f, self._val_key(x, st, depth + 1)) for f, x in sorted(v0.fields.items())))
+        return ("?", id(v0))
+
+    def _comp_key(self, node, st):
+        """memo key of a comprehension: element / filter / target text, the *value* of what is iterated, and
+        the current values of the other names mentioned — the same comprehension over the same values denotes
+        the same list (so a spec and the code agree on one array)"""
+        if len(node.generators) != 1:
+            return None
+        g = node.generators[0]
+        try:
+            outs = list(self.ev(g.iter, st.copy()))
+        except Unsupported:
+            return None
+        if len(outs) != 1 or isinstance(outs[0][0], Exc):
+            return None
+        itv, s_it = outs[0]
+        targets = {n.id for n in ast.walk(g.target) if isinstance(n, ast.Name)}
+        body_nodes = [node.elt] + list(g.ifs)
+        names = sorted({n.id for b in body_nodes for n in ast.walk(b) if isinstance(n, ast.Name)} - targets)
+        parts = []
+        for nm in names:
+            if nm in st.env:
+                parts.append((nm, self._val_key(st.env[nm], st)))
+        return (ast.dump(node.elt), tuple(ast.dump(i) for i in g.ifs), ast.dump(g.target), self._val_key(itv, s_it), tuple(parts))
+
     def ev_ListComp(self, node, st):
+        key = self._comp_key(node, st)
+        memo = self._comp_memo.get(key) if key is not None else None
+        if memo is not None:
+            arr, n, es, facts = memo
+            for f in facts:
+                if not any(f is g for g in st.pc):
+                    st.assume(f)
+            yield self.box_list(seqs.view(arr, z3.IntVal(0), n, es), st), st
+            return
+        base_len = len(st.pc)
+        for v, s in self._ev_ListComp(node, st):
+            if isinstance(v, VRef) and s is st:
+                cur = s.heap[v.ref]
+                if isinstance(cur, VSeq) and len(cur.pieces) == 1 and cur.pieces[0].kind == "view":
+                    p = cur.pieces[0]
+                    if key is not None:
+                        self._comp_memo[key] = (p.a, p.hi, cur.elem, list(s.pc[base_len:]))
+            yield v, s
+
+    def _ev_ListComp(self, node, st):
         k, n, vals, conds, sub, s = self._comp_body(node, [node.elt], st)
         if n is None:
             raise Unsupported("comprehension over a dict")
@@ -854,7 +912,9 @@ class CallMixin:
         yield self.box_list(seqs.view(arr, z3.IntVal(0), m, elem_sort), s), s
 
     def ev_GeneratorExp(self, node, st):
-        for v, s in self.ev_ListComp(node, st):
+        as_list = ast.ListComp(elt=node.elt, generators=node.generators)
+        ast.copy_location(as_list, node)
+        for v, s in self.ev_ListComp(as_list, st):
             yield v, s
 
     def quantified(self, fname, gen, st, extra_args):
